@@ -64,7 +64,12 @@ Layouts == <<
   <<Single(0, 0), PerA(2, 0, 4)>>,                          \* periodic assertion on a periodic column
   <<Single(0, 3), PerA(2, 3, 4), SeqA(1, 3, 4, 4)>>,
   <<SeqA(0, 1, 2, 8), SeqA(1, 1, 4, 4), Single(2, 0)>>,
-  <<SeqA(0, 0, 8, 2), SeqA(1, 0, 2, 8)>> >>
+  <<SeqA(0, 0, 8, 2), SeqA(1, 0, 2, 8)>>,
+  \* a periodic assertion with a single instance (stride = trace length) sharing its step — hence its
+  \* divisor, in a different group — with a single assertion
+  <<Single(0, 15), PerA(2, 15, 16)>>,
+  <<Single(1, 15), PerA(2, 15, 16), Single(0, 0)>>,
+  <<PerA(2, 14, 16), Single(0, 14), Single(1, 15)>> >>
 FixedShapes == <<"sum", "mul2", "pcol">>
 FixedCfgs == {LayoutBase(FixedShapes, e, Layouts[i]) : e \in {2, 3, 4}, i \in 1..Len(Layouts)}
 \* second fixed family: more transition constraints than columns (duplicated leading constraints), and
